@@ -223,6 +223,15 @@ func Invariant(w *world.World) []world.Finding {
 			if p == nil {
 				continue
 			}
+			// a pruned revision's name may be taken again by a later ObjectSet (rollback to its
+			// template): the entry then names an object created after this one, which it never was
+			// a successor of
+			var pn64, kn64 int64
+			fmt.Sscanf(kmodel.UID(p.Content), "uid-%d", &pn64)
+			fmt.Sscanf(kmodel.UID(c), "uid-%d", &kn64)
+			if pn64 > kn64 {
+				continue
+			}
 			if pr := osw.StatusRevision(p.Content); pr != 0 && pr >= rev {
 				out = append(out, world.Finding{Monitor: "revisions", Identity: "revision-not-increasing", Message: fmt.Sprintf("ObjectSet %s has revision %d but its previous %s has %d", k.Name, rev, pn, pr)})
 			}
@@ -232,13 +241,13 @@ func Invariant(w *world.World) []world.Finding {
 }
 
 type scenario struct {
-	Edits  int    `json:"edits"`
-	Faults int    `json:"faults"`
+	Edits  int `json:"edits"`
+	Faults int `json:"faults"`
 	// Conflicts: budget of foreign writes landing inside a deployment pass
-	Conflicts int `json:"conflicts"`
-	Stale  int    `json:"staleLists"`
-	Clash  string `json:"clash"` // "", archived, different-spec, foreign
-	Pause  int    `json:"pauses"`
+	Conflicts int    `json:"conflicts"`
+	Stale     int    `json:"staleLists"`
+	Clash     string `json:"clash"` // "", archived, different-spec, foreign
+	Pause     int    `json:"pauses"`
 }
 
 func (sc scenario) name() string {
@@ -444,6 +453,7 @@ func init() {
 				return 9
 			}
 			return 5
-		}, Run: run, Replay: replay, Parallel: true}},
+		}, Run: run, Replay: replay, Parallel: true},
+			{Name: "histories", Shards: func(string) int { return 8 }, Run: runHistories, Replay: replayHistory}},
 	})
 }
